@@ -32,6 +32,8 @@ def to_sympy(e, syms):
         return to_sympy(e[1], syms) ** e[2]
     if t == "fn":
         return getattr(sympy, e[1])(to_sympy(e[2], syms))
+    if t == "fn2":
+        return getattr(sympy, e[1])(to_sympy(e[2], syms), to_sympy(e[3], syms))
     raise ValueError(e)
 
 
@@ -94,11 +96,14 @@ def export_block(bb):
 
 
 # ------------------------------------------------------------------------------------------ building definitions
-def build(defn, decl=None):
+def build(defn, decl=None, assumptions=None):
     names = [defn["dt"]] + defn["state"] + defn["control"] + defn["calibration"]
-    syms = {n: Symbol(n) for n in names}
+    syms = {n: Symbol(n, **(assumptions or {})) for n in names}
     decl = decl or {"container": "set", "perm_seed": 0}
     rng = random.Random(decl.get("perm_seed", 0))
+    # ui.Model(proactive_simplify=True) is a supported way to declare a model; only on request (sympy's simplify can
+    # take minutes on large expressions: it is given 20 s, after which the declaration is repeated without it)
+    proactive = bool(decl.get("proactive_simplify", False))
 
     def cont(xs):
         xs = [syms[x] for x in xs]
@@ -110,8 +115,30 @@ def build(defn, decl=None):
         rng.shuffle(items)
         return dict(items)
     sm = dshuf((syms[k], to_sympy(v, syms)) for k, v in defn["state_model"].items())
-    model = ui.Model(dt=syms[defn["dt"]], state=cont(defn["state"]), control=cont(defn["control"]),
-                     calibration=cont(defn["calibration"]), state_model=sm)
+    import contextlib
+    import io
+    import signal
+
+    class _Slow(Exception):
+        pass
+
+    def _alarm(*_a):
+        raise _Slow()
+    st, ct, cl = cont(defn["state"]), cont(defn["control"]), cont(defn["calibration"])
+    model = None
+    if proactive:
+        old = signal.signal(signal.SIGALRM, _alarm)
+        signal.alarm(20)
+        try:
+            with contextlib.redirect_stdout(io.StringIO()):
+                model = ui.Model(dt=syms[defn["dt"]], state=st, control=ct, calibration=cl, state_model=dict(sm), proactive_simplify=True)
+        except _Slow:
+            model = None
+        finally:
+            signal.alarm(0)
+            signal.signal(signal.SIGALRM, old)
+    if model is None:
+        model = ui.Model(dt=syms[defn["dt"]], state=st, control=ct, calibration=cl, state_model=sm)
     sensors = dshuf((k, dshuf((r, to_sympy(e, syms)) for r, e in rd.items())) for k, rd in defn["sensors"].items())
     pn = dshuf((syms[u], v) for u, v in defn["process_noise"].items())
     sn = dshuf((k, dshuf(rd.items())) for k, rd in defn["sensor_noise"].items())
@@ -140,6 +167,8 @@ def float_eval(e, env):
             r = math.pow(args[0], args[1])
         else:
             nm = type(e).__name__.lower()
+            if nm == "atan2":
+                return math.atan2(*args)
             recip = {"sec": math.cos, "csc": math.sin, "cot": math.tan, "sech": math.cosh, "csch": math.sinh, "coth": math.tanh}
             if nm in recip:
                 r = 1.0 / recip[nm](*args)
@@ -173,8 +202,14 @@ def exact(expr, env):
 
 def run_job(job):
     defn = job["defn"]
-    syms, model, sensors, pn, sn, cm = build(defn, job.get("decl"))
     cfg = python.Config(common_subexpression_elimination=job["cse"], innovation_filtering=None)
+    if job.get("warmup_assumptions"):
+        # the same definition over same-named symbols that carry assumptions is compiled first in this interpreter:
+        # nothing of it may leak into the model compiled afterwards
+        _s, _m, _se, _pn, _sn, _cm = build(defn, job.get("decl"), assumptions=job["warmup_assumptions"])
+        _pm = python.compile(_m, _cm, config=cfg)
+        _pm.model(0.125, _pm.State(**{str(a): 1.5 for a in _pm.arglist_state}), _pm.Control(**{str(a): 0.5 for a in _pm.arglist_control}))
+    syms, model, sensors, pn, sn, cm = build(defn, job.get("decl"))
     want = job.get("want", ["model"])
     out = {"cse": job["cse"]}
     pm = python.compile(model, cm, config=cfg)
@@ -214,7 +249,8 @@ def run_job(job):
             r["model"] = {str(n): float(v) for n, v in zip(pm.arglist_state, nxt.data[:, 0])}
         except Exception as e:  # noqa
             r["model"] = {"_raised": type(e).__name__ + ": " + str(e)[:200]}
-        r["oracle_model"] = {s: exact(to_sympy(e, syms), env) for s, e in defn["state_model"].items()}
+        r["oracle_model"] = {s: (None if p.get("branch_cut") else exact(to_sympy(e, syms), env)) for s, e in defn["state_model"].items()}
+        r["branch_cut"] = bool(p.get("branch_cut"))
         if ekf is not None:
             est = ekf.State(**p["state"])
             ectl = ekf.Control(**p["control"])
